@@ -1,5 +1,6 @@
 import HdModel.Model.Util
 import HdModel.Spec.Timeout
+import HdModel.Model.Builder
 namespace Hd.Timeout
 
 def showOut : Option (Outcome × Nat) → String
@@ -41,9 +42,22 @@ def driverLine (inp obs : List String) : Bool × Bool × String × String :=
     `toc <timeout|-> <via> <redirects> <pool> ; <delay>*`   obs: `<ok-STATUS|timeout|err|hang> <ms> <probe>` -/
 def tocLine (inp obs : List String) : Bool × Bool × String × String :=
   match inp with
-  | tmo :: _via :: redirects :: _pool :: ";" :: ds =>
+  | tmoT :: via :: redirects :: pool :: ";" :: ds =>
     let delays := ds.map natTok
-    let follow := redirects != "0"
+    -- what the builder model says is configured after the harness' calls (`harness/src/toc.rs`, call for call)
+    let tcalls : List Builder.Call := match via, tmoT.toNat? with
+      | "0", some d => [.withTimeout d]
+      | "0", none => [.withoutTimeout]
+      | "1", t => [.withOptionalTimeout t]
+      | _, some d => [.withTimeout 77000, .withTimeout d]
+      | _, none => [.withTimeout 77000, .withoutTimeout]
+    let fin : List Builder.Call := [.withAutoHttp, .withoutTls, if pool == "1" then .withDefaultPool else .withoutPool] ++ tcalls
+    let b := match redirects with
+      | "0" => Builder.run Builder.new ([Builder.Call.withTransport, Builder.Call.withoutRedirects] ++ fin)
+      | "1" => Builder.run Builder.new ([Builder.Call.withTransport, Builder.Call.withStandardRedirectPolicy] ++ fin)
+      | _ => Builder.run Builder.dflt ([Builder.Call.withTransport] ++ fin)
+    let tmo := match b.timeout with | some d => toString d | none => "-"
+    let follow := b.redirect.isSome
     let total := if follow then delays.sum else delays.headD 0
     let status := if follow || delays.length ≤ 1 then 200 else 302
     let i : Inner := { at_ := some total, ok := true }
